@@ -183,7 +183,7 @@ def worker(chunk, seed, tier):
             elif group == "table-rows":
                 muts = fe.table_row_deletions(text, max_tables=None if tier == "thorough" else 150)
             elif group == "counters":  # every integer token off by one: counts that disagree with what follows
-                muts = fe.token_substitutions(text, menu=["DEC1", "INC1"], max_tokens=None if tier == "thorough" else 4000)
+                muts = fe.token_substitutions(text, menu=["DEC1", "INC1", "HUGEINT"], max_tokens=None if tier == "thorough" else 4000)
             elif group.startswith("truncate-lines-every"):
                 step = int(group.rsplit("-", 1)[1])
                 muts = (m for i, m in enumerate(fe.line_truncations(text)) if i % step == 0)
@@ -377,7 +377,7 @@ def run(ctx):
     ctx.exhaustive = not capped
     ctx.rule = (
         f"every line-boundary truncation of every generated file and of every corpus file with <= {small_limit} lines (larger files: every n-th line, listed under capped_files); every byte truncation of "
-        "generated files <= 6000 bytes; every single-line delete/duplicate/swap and every single-token substitution from a 10-entry menu on generated (and small corpus) files; on larger files every integer token off by one (counters) and the first/middle/last row deleted from every table (run of equally shaped lines); empty, binary and "
+        "generated files <= 6000 bytes; every single-line delete/duplicate/swap and every single-token substitution from an 11-entry menu on generated (and small corpus) files; on larger files every integer token off by one or beyond 64 bits (counters) and the first/middle/last row deleted from every table (run of equally shaped lines); empty, binary and "
         "newline-only content under every name; every generated file's content under every other format's name; explicit fmt= for every module. Each mutated file is loaded with load_one and, where "
         "available, load_many (exhausted; every 7th truncation also closed and dropped after 0, 1 and 2 requested frames). Non-trivial/distinct = (file, fault group, outcome class)."
     )
